@@ -811,7 +811,10 @@ func (c *lmCtx) checkJournaling(r *Report) {
 		}
 		r.Unreachable("R3:first-write-wins@"+FnName(fn), "R3 journal completeness",
 			"a revert record that already exists is never overwritten (it holds the pre-transaction zone)", fn, nil,
-			func(in ssa.Instruction) bool { mu, ok := in.(*ssa.MapUpdate); return ok && isMapWriteOf(mu, c.fReverts) }, assumeExists)
+			func(in ssa.Instruction) bool {
+				mu, ok := in.(*ssa.MapUpdate)
+				return ok && isMapWriteOf(mu, c.fReverts)
+			}, assumeExists)
 	}
 	if c.jAssign != nil && c.fUpdates != nil {
 		// updates[id] = zone is unconditional once the journal exists
@@ -829,7 +832,10 @@ func (c *lmCtx) checkJournaling(r *Report) {
 		// and no revert-exists early return precedes it
 		r.MustPass("R3:updates-unconditional@"+FnName(fn), "R3 journal completeness",
 			"journal.assign records the update on every path on which the journal is active", fn, nil, nil,
-			func(in ssa.Instruction) bool { mu, ok := in.(*ssa.MapUpdate); return ok && isMapWriteOf(mu, c.fUpdates) },
+			func(in ssa.Instruction) bool {
+				mu, ok := in.(*ssa.MapUpdate)
+				return ok && isMapWriteOf(mu, c.fUpdates)
+			},
 			func(cond ssa.Value) (bool, bool) { // j == nil is false
 				b, ok := cond.(*ssa.BinOp)
 				if ok && (b.Op == token.EQL || b.Op == token.NEQ) && (paramIndex(b.X) == 0 || paramIndex(b.Y) == 0) {
